@@ -17,8 +17,9 @@ Definition pool_effective_n_jobs (mp_none : bool) (cpus : Z) (n_jobs : Z) : resu
 
 (* LokyBackend.effective_n_jobs *)
 Definition loky_effective_n_jobs (mp_none : bool) (cpus : Z) (daemon : bool) (depth : Z) (main_thread : bool) (level : Z) (n_jobs : Z) : result Z :=
-  if (n_jobs =? (0)) then (Raise ValueError) else (if (mp_none || false) then (Ok ((1))) else (if (n_jobs <? (0)) then (let n_jobs := (Z.max ((cpus + (1)) + n_jobs) (1)) in
-  Ok (n_jobs)) else (if daemon then (Ok ((1))) else (if (negb (main_thread || (level =? (0)))) then (Ok ((1))) else (Ok (n_jobs)))))).
+  if (n_jobs =? (0)) then (Raise ValueError) else (if (mp_none || false) then (Ok ((1))) else (if daemon then (Ok ((1))) else (if (negb (main_thread || (level =? (0)))) then (Ok ((1))) else (bind (if (n_jobs <? (0)) then (let n_jobs := (Z.max ((cpus + (1)) + n_jobs) (1)) in
+  Ok n_jobs) else (Ok n_jobs)) (fun n_jobs =>
+  Ok (n_jobs)))))).
 
 (* MultiprocessingBackend.effective_n_jobs *)
 Definition mp_effective_n_jobs (mp_none : bool) (cpus : Z) (daemon : bool) (depth : Z) (main_thread : bool) (level : Z) (n_jobs : Z) : result Z :=
